@@ -98,6 +98,12 @@ Definition spec03 (c : case) : bool :=
   | CFun _ _ _ _ _ => true
   | CCopy _ _ _ _ _ _ _ _ _ _ => true
   | CNet xs ws scripts prog ns => forallb spec_net ns
+  | CLazy xs ws scripts prog steps =>
+    forallb (fun st => match st with
+                       | LQ o _ => spec_query03 o
+                       | LExpire => true
+                       | LPair a b _ => spec_query03 a && spec_query03 b
+                       end) steps
   end.
 Definition spec := spec03.
 
@@ -108,7 +114,7 @@ Definition b2n (b : bool) : N := if b then 1 else 0.
 Definition nontrivial03 (c : case) : bool :=
   match c with
   | CRun xs ws scripts prog qs =>
-    (2 <=? b2n (existsb (fun d => match d with DCache _ => true | _ => false end) ws)
+    (2 <=? b2n (existsb (fun d => match d with DCache _ _ => true | _ => false end) ws)
            + b2n (existsb (fun d => match d with DRedirect _ => true | _ => false end) ws)
            + b2n (existsb (fun d => match d with DHosts _ | DBlackHole _ _ | DArbitrary _ => true | _ => false end) xs)
            + b2n (existsb (fun d => match d with DForward _ => true | _ => false end) xs)
@@ -117,6 +123,7 @@ Definition nontrivial03 (c : case) : bool :=
     && existsb (fun o => match o with QObs _ _ _ _ (OAnswer _) (Some _) _ => true | _ => false end) qs
   | CFun _ _ _ _ _ => false
   | CCopy _ _ _ _ _ _ _ _ _ _ => false
+  | CLazy xs ws scripts prog steps => Judge.C15.nontrivial15 c
   | CNet _ _ _ _ ns =>
     (* all five transports were used and some query is at a boundary: the root name, or a reply of more than 512 bytes *)
     forallb (fun t => existsb (fun o => match o with NObs tr _ (Some _) _ => tr =? t | _ => false end) ns) [0; 1; 2; 3; 4]
